@@ -588,7 +588,7 @@ func RNegChars(c *core.Ctx) {
 		// methods of CharSet may read c.negate directly
 		ast.Inspect(fd.Body, func(n ast.Node) bool {
 			if sel, ok := n.(*ast.SelectorExpr); ok {
-				if f := core.FieldOf(info, sel); f != nil && f.Name() == "negate" {
+				if f := core.FieldOf(info, sel); f != nil && core.BaseName(f) == "negate" {
 					negRecv[types.ExprString(sel.X)] = true
 				}
 			}
@@ -887,7 +887,7 @@ func RAtomSucc(c *core.Ctx) {
 		switch reason, ok := atomSuccTable[k.Name()]; {
 		case ok:
 			c.OK(key, pos, "%s", reason)
-		case k.Name() == "NtNonboundary" || k.Name() == "NtNonECMABoundary":
+		case core.BaseName(k) == "NtNonboundary" || core.BaseName(k) == "NtNonECMABoundary":
 			c.Bad(key, pos, "\\B after a greedy run of non-word characters fails at the run's end when a word character follows but holds one character earlier, so the loop must be able to give a character back (\\W+\\B, \\D+\\B, -+\\B)")
 		default:
 			c.Unknown(key, pos, "no soundness argument recorded for this successor kind")
